@@ -21,6 +21,7 @@ RULE = ('cases = one path of 1..8 segments (all type mixes; length ratios up to 
         'positions; continuous, closed or broken into subpaths) queried at T in {0, 1, every cumulative boundary, boundary +- 1 '
         'ulp, nextafter(1,0), nextafter(0,1), random} plus t2T at (k, t) grids and the topology queries; distinct by path spec; '
         'non-trivial if an oracle verdict was reached')
+RULE += '; discontinuous paths with T on the joints, joints that miss by 1e-9..1e-6, and paths derived (reversed/translated/rotated/scaled) from a path that has already answered queries; T2t must return t in [0,1] exactly'
 ASSUMPTIONS = ['segment.length() is the arc length (C06\'s subject); the oracle recomputes the fractions from it',
                'for arcs point(0)/point(1) reproduce start/end to the accuracy granted by C04']
 TIERS = {
